@@ -101,6 +101,8 @@ CORPUS = [
     ("point-functions", H + "table(glyph) cA = glyphid(3..6) {p1 = point(10m, 20m); p2 = point(10m, 20m, 3m, 4m); p3 = gpoint(2); p4 = gpoint(3, 10m, 20m); p5 = gpath(0); p6 = gpath(0, 5m, 6m); component.a = box(0, 0, 100m, 200m)}; cB = glyphid(7..10) {q = gpoint(1, 2m, 3m)}; endtable;\n"
      "table(pos) cA cB {attach {to = @1; at = p2; with = q}}; endtable;\n", None, {}),
     ("gpoint-two-arguments", H + "table(glyph) cA = glyphid(3..6) {p4 = gpoint(3, 10m)}; cB = glyphid(7..10); endtable;\n" + OKRULE, None, {}),
+    ("empty-feature-label", H + 'table(feature) f1 { id = 100; name.1033 = string(""); settings { on { value = 1; name.1033 = string("") } off { value = 0; name.1033 = string("Off") } } default = off; } endtable;\n' + G + OKRULE, None, {}),
+    ("empty-feature-label-only", H + 'table(feature) f1 { id = 100; name.1033 = string(""); } endtable;\n' + G + OKRULE, None, {}),
     ("family-name-200", H + G + OKRULE, None, {"family": "F" * 200}),
     ("family-name-1000", H + G + OKRULE, None, {"family": "F" * 1000}),
     ("codepoint-to-ffff", H + "table(glyph) cA = codepoint(65..65535); cB = glyphid(7..9); endtable;\ntable(sub) cA > cB; endtable;\n", None, {}),
